@@ -6,7 +6,7 @@ from pipeline import *
 ITEMS = json.load(open(os.path.join(SPEC, "tpl_items.json")))
 VALPOOL = [{"t": "Int", "v": "7"}, {"t": "String", "v": "a?b"}, {"t": "String", "v": "x$1'y"}, {"t": "Int", "v": "42"},
            {"t": "String", "v": "back\\"}, {"t": "Bool", "v": True}, {"t": "String", "null": True}]
-RAND_ITEMS = [i["s"] for i in ITEMS] + ["é", "中x", "'it''s ?'", "'a\\'?'", "\"q\"\"?\"", "[b?]", " ", "\t", "::", "->>", "$10", "$01", "?1", "x_1", "1e5"]
+RAND_ITEMS = [i["s"] for i in ITEMS] + ["é", "中x", "'it''s ?'", "'a\\'?'", "\"q\"\"?\"", "[b?]", "]", "[[0]]", "ARRAY[[1,2],[3,4]]", " ", "\t", "::", "->>", "$10", "$01", "?1", "x_1", "1e5"]
 
 def _sel(*exprs):
     return {"kind": "select", "calls": [{"op": "expr", "e": e} for e in exprs]}
@@ -31,7 +31,7 @@ def run(tier, replay_path=None):
         tlc_must_pass(mc, "MCTemplate")
         states, gen, mvs = mc.distinct, mc.generated, len(mc.payloads("MV"))
         words = mc.json_payloads("CASE")
-        log("[C11] MC: %d templates (<= %d items of 18), %d model-level counterexamples, %.0fs" % (len(words), n, mvs, mc.wall))
+        log("[C11] MC: %d templates (<= %d items of %d), %d model-level counterexamples, %.0fs" % (len(words), n, len(ITEMS), mvs, mc.wall))
         if tier == "quick":
             words = [w for w in words if len(w) <= 2] + sample([w for w in words if len(w) > 2], 4000, rng)
         else:
